@@ -47,7 +47,11 @@ def lexsort (le : α → α → Bool) (keys : List (List α)) (n : Nat) : List N
 
 /-- The "container for sort" after the key function (if any) has run:
     one key vector, or the columns of a 2-D array / the depths of an IndexHierarchy
-    (`cols[d]` = values at depth `d`). -/
+    (`cols[d]` = values at depth `d`).
+    A 2-D array of exactly ONE column has `cfs_depth = shape[1] = 1`: `sort_index_for_order` takes
+    the depth-1 branch and (since the repair `if v.ndim == 2: v = v[:, 0]`) argsorts that column,
+    as `Frame.sort_values` always did; it is `.multi [c]` here and `orderOf` gives it the order of
+    `.single c` (`SF.C12.one_column_key`). -/
 inductive SortKeys (α : Type)
   | single (v : List α)
   | multi (cols : List (List α))
